@@ -145,6 +145,7 @@ func (fr *frame) execBlock(b *ssa.BasicBlock, st *bstate) {
 				f.oblige(st, fmt.Sprintf("%s#send-on-open:%s", fnShortName(fr.fn), valueLabel(x.Chan)), "safety", f.sweepTags, not(closed), "send on channel that may be closed", posStr(f.e.fset, x.Pos()))
 			}
 			fr.noteSend(x, st)
+			fr.beforeSendAsserts(x, st, "true")
 			f.exact["Send"]++
 		case *ssa.Store:
 			addr := fr.val(x.Addr)
@@ -619,6 +620,11 @@ func (fr *frame) selectInstr(x *ssa.Select, st *bstate) {
 					f.assume(st, implies(eq(idx, intLit(int64(i))), app("select", f.hs.read(st.heap, key), cv.Tm)), "a taken receive from ctx.Done() means the context has ended")
 				}
 			}
+		}
+	}
+	for i, s := range x.States {
+		if s.Dir == types.SendOnly {
+			fr.beforeSendAsserts(x, st, eq(idx, intLit(int64(i))))
 		}
 	}
 	// a send case that is taken on a closed channel panics (also with a default case)
